@@ -414,6 +414,7 @@ func (m *msView) Store(_ context.Context, id string, created int64, e *appencryp
 		return false, fmt.Errorf("metastore store (ack lost): %w", errInjected)
 	}
 	if exists {
+		m.w.S.Probe("metastore.duplicate_insert_refused")
 		m.w.leave(c, "dup")
 		return false, nil
 	}
